@@ -278,10 +278,13 @@ def add_world(T: Types, reg: Registry, orch_cls=None):
         key="StateBackend.add_histories", shape="StateBackend",
         params={"invocations": invs_t, "status_record": T.Record, "runner_context": T.RunnerCtx}, frame=["hist"],
         cases=[Case("appended", ensures=[("one-entry-per-invocation", lambda c: _hist_many(T, c, hist_get))])], **A))
+    # a storage write may fail (serialisation error, I/O fault): then nothing is stored and the fault propagates
     reg.add(Contract(key="StateBackend.set_result", shape="StateBackend", params={"invocation_id": ID, "result": Atom("Payload")},
-                     frame=["res"], cases=[Case("stored", ensures=[("res", lambda c: c.f("res") == z3.Store(c.old("res"), c.arg("invocation_id"), True))])], **A))
+                     frame=["res"], cases=[Case("stored", ensures=[("res", lambda c: c.f("res") == z3.Store(c.old("res"), c.arg("invocation_id"), True))]),
+                                           Case("storage-fault", raises="Exception", ensures=[("nothing-stored", lambda c: c.f("res") == c.old("res"))])], **A))
     reg.add(Contract(key="StateBackend.set_exception", shape="StateBackend", params={"invocation_id": ID, "exception": Atom("Payload")},
-                     frame=["exc"], cases=[Case("stored", ensures=[("exc", lambda c: c.f("exc") == z3.Store(c.old("exc"), c.arg("invocation_id"), True))])], **A))
+                     frame=["exc"], cases=[Case("stored", ensures=[("exc", lambda c: c.f("exc") == z3.Store(c.old("exc"), c.arg("invocation_id"), True))]),
+                                           Case("storage-fault", raises="Exception", ensures=[("nothing-stored", lambda c: c.f("exc") == c.old("exc"))])], **A))
     reg.add(Contract(
         key="StateBackend.get_invocation", shape="StateBackend", params={"invocation_id": ID}, result=T.Invocation, frame=[],
         cases=[
